@@ -104,6 +104,11 @@ def run_tlc(workdir, module, cfg, workers=None, timeout=600, simulate=None, dept
     rc, out, wall = sh(cmd, cwd=workdir, timeout=timeout)
     r = TLCResult()
     r.rc, r.out, r.wall, r.workdir = rc, out, wall, workdir
+    try:
+        with open(os.path.join(workdir, "tlc.out"), "w") as fh:
+            fh.write(out)
+    except OSError:
+        pass
     r.timeout = (rc == 124)
     for m in _RE_STATES.finditer(out):
         r.generated, r.distinct = int(m.group(1)), int(m.group(2))
